@@ -324,7 +324,7 @@ const START_ATTEMPTS: u64 = 8;
 /// again. On an overloaded machine that state can outlast all our attempts; it says nothing about
 /// what would be replayed, so such a restart is inconclusive, not a violation.
 fn is_actor_start_failure(e: &str) -> bool {
-    e.starts_with("START:") && e.contains("error occurred in internal actor")
+    e.starts_with("START:") && (e.contains("error occurred in internal actor") || e.contains("Actor panicked during startup") || e.contains("actor is likely terminated"))
 }
 
 async fn restart_and_replay_once(script: &Script, expect_some: bool) -> Result<(Vec<String>, bool), String> {
@@ -451,189 +451,216 @@ impl Property for C15Prop {
                 }
             }
         }
-        let mut reached: BTreeSet<String> = BTreeSet::new();
-        let mut exhausted: BTreeSet<String> = BTreeSet::new();
-        for (pi, (crash_after, point)) in positions.into_iter().enumerate() {
-            if let Some((p, _)) = &point {
-                if exhausted.contains(p) {
-                    continue;
-                }
-            }
-            let db = format!("{base}-{pi}.sqlite");
-            let script = Script { seed, explicit, steps: steps.clone(), db: db.clone(), crash_point: point.clone(), crash_after };
-            let cleanup = || {
-                for s in ["", "-wal", "-shm", "-journal", ".progress", ".script"] {
-                    let _ = std::fs::remove_file(format!("{db}{s}"));
-                }
-            };
-            cleanup();
-            // Phase 1: run until the crash.
-            let progress: Progress = if let Some((p, n)) = &point {
-                let sp = format!("{db}.script");
-                std::fs::write(&sp, serde_json::to_vec(&script).unwrap()).unwrap();
-                let out = std::process::Command::new(std::env::current_exe().unwrap()).arg("c15-child").arg(&sp).output();
-                let aborted = match &out {
-                    Ok(o) => !o.status.success() && o.status.code().is_none(),
-                    Err(_) => false,
-                };
-                let progress: Progress = std::fs::read(format!("{db}.progress")).ok().and_then(|b| serde_json::from_slice(&b).ok()).unwrap_or_default();
-                if !aborted {
-                    // The point's n-th occurrence was never reached: the script ran to its end.
-                    exhausted.insert(p.clone());
+        // The real Node under an overloaded machine sometimes behaves differently for reasons that
+        // have nothing to do with the scenario (an actor of the network stack that does not come
+        // up, a replay task that starts late). Every verdict of this check is a deterministic
+        // function of the script and the crash position, so a violation is reported only when the
+        // identical scenario, executed once more from scratch, shows it again.
+        let mut first_pass: Vec<simcore::ctx::Violation> = vec![];
+        for pass in 0..2 {
+            'pass: {
+                let mut reached: BTreeSet<String> = BTreeSet::new();
+                let mut exhausted: BTreeSet<String> = BTreeSet::new();
+                for (pi, (crash_after, point)) in positions.clone().into_iter().enumerate() {
+                    if let Some((p, _)) = &point {
+                        if exhausted.contains(p) {
+                            continue;
+                        }
+                    }
+                    let db = format!("{base}-{pi}.sqlite");
+                    let script = Script { seed, explicit, steps: steps.clone(), db: db.clone(), crash_point: point.clone(), crash_after };
+                    let cleanup = || {
+                        for s in ["", "-wal", "-shm", "-journal", ".progress", ".script"] {
+                            let _ = std::fs::remove_file(format!("{db}{s}"));
+                        }
+                    };
                     cleanup();
-                    continue;
-                }
-                ctx::fault("crash_at(point)");
-                reached.insert(p.clone());
-                ev!("crash point {p} #{n}: aborted after {} completed steps", progress.completed);
-                progress
-            } else {
-                let s2 = script.clone();
-                let r = std::thread::Builder::new()
-                    .name("sim-node".into())
-                    .spawn(move || stepexec::block_on_seeded(seed, async move { run_script(&s2, None).await }))
-                    .unwrap()
-                    .join();
-                ctx::fault("crash_at(step)");
-                match r {
-                    Ok(Ok((p, log))) => {
-                        ev!("crash after step {crash_after}: {}", log.join("; "));
-                        p
-                    }
-                    Ok(Err(e)) if is_actor_start_failure(&e) => {
-                        ctx::probe("inconclusive_node_start_failed");
-                        ev!("inconclusive: the node did not start in {START_ATTEMPTS} attempts ({e})");
-                        cleanup();
-                        return;
-                    }
-                    Ok(Err(e)) => {
-                        violation("node-api-failed", "fault-free script", e);
-                        cleanup();
-                        return;
-                    }
-                    Err(_) => {
-                        let info = simcore::runner::take_panic_info();
-                        violation("panic", "node script", format!("panic while running the script: {info:?}"));
-                        cleanup();
-                        return;
-                    }
-                }
-            };
-            // Phase 2 + 3: read durable state, restart, compare; restart once more.
-            let db2 = db.clone();
-            let script2 = script.clone();
-            let app_acks: BTreeSet<String> = progress.ack_attempted.iter().chain(progress.acked.iter()).cloned().collect();
-            let verdict = std::thread::Builder::new()
-                .name("sim-node".into())
-                .spawn(move || {
-                    stepexec::block_on_seeded(seed, async move {
-                        let durable = read_durable(&db2, seed).await?;
-                        let app_acks = app_acks;
-                        let expected: Vec<String> = durable
-                            .entries
-                            .iter()
-                            .filter(|((a, seq), (_, has_body))| *has_body && durable.cursor.get(a).map(|c| seq > c).unwrap_or(true))
-                            .map(|(_, (id, _))| id.clone())
-                            .collect();
-                        let (replayed, ended) = restart_and_replay(&script2, !expected.is_empty()).await?;
-                        // With the automatic policy the first replay acknowledges what it delivers;
-                        // with the explicit policy a second restart must replay the same set.
-                        // (A replayed prune operation is applied by the pipeline, so the expectation is
-                        // recomputed from what is durable before the second restart.)
-                        let second = if script2.explicit {
-                            let durable2 = read_durable(&db2, seed).await?;
-                            let expected2: Vec<String> = durable2
-                                .entries
-                                .iter()
-                                .filter(|((a, seq), (_, has_body))| *has_body && durable2.cursor.get(a).map(|c| seq > c).unwrap_or(true))
-                                .map(|(_, (id, _))| id.clone())
-                                .collect();
-                            Some((restart_and_replay(&script2, !expected2.is_empty()).await?.0, expected2))
-                        } else {
-                            None
+                    // Phase 1: run until the crash.
+                    let progress: Progress = if let Some((p, n)) = &point {
+                        let sp = format!("{db}.script");
+                        std::fs::write(&sp, serde_json::to_vec(&script).unwrap()).unwrap();
+                        let out = std::process::Command::new(std::env::current_exe().unwrap()).arg("c15-child").arg(&sp).output();
+                        let aborted = match &out {
+                            Ok(o) => !o.status.success() && o.status.code().is_none(),
+                            Err(_) => false,
                         };
-                        // The application's own view (explicit policy): a stored operation with a
-                        // body is unacknowledged unless the application called ack() for it or for a
-                        // later operation of the same log, or a later stored operation of that log
-                        // has no body (those are acknowledged by the stream itself). This view does
-                        // not read the persisted cursor.
-                        let app_unacked: Vec<String> = durable
-                            .entries
-                            .iter()
-                            .filter(|((a, seq), (_, has_body))| {
-                                *has_body
-                                    && !durable.entries.iter().any(|((a2, s2), (id2, b2))| a2 == a && s2 >= seq && (!*b2 || app_acks.contains(id2)))
-                            })
-                            .map(|(_, (id, _))| id.clone())
-                            .collect();
-                        Ok::<_, String>((durable.entries.len(), durable.cursor, expected, replayed, ended, second, app_unacked))
-                    })
-                })
-                .unwrap()
-                .join();
-            cleanup();
-            let site = match &point {
-                Some((p, _)) => format!("abort at crash point {p}"),
-                None => "crash at a step boundary".to_string(),
-            };
-            match verdict {
-                Ok(Ok((stored, cursor, expected, replayed, ended, second, app_unacked))) => {
-                    let short = |v: &Vec<String>| v.iter().map(|s| s[..6].to_string()).collect::<Vec<_>>().join(",");
-                    ev!("  after crash: {stored} stored, cursor {:?}; expected replay [{}]; replayed [{}] (ReplayEnded: {ended})", cursor.values().collect::<Vec<_>>(), short(&expected), short(&replayed));
-                    let exp: BTreeSet<&String> = expected.iter().collect();
-                    let got: BTreeSet<&String> = replayed.iter().collect();
-                    if let Some(m) = exp.difference(&got).next() {
-                        violation("unacknowledged-operation-not-replayed", &site, format!("stored operation {} (with body, above the durable cursor) was not delivered again after restart; replayed [{}], expected [{}]; completed steps {}", &m[..6], short(&replayed), short(&expected), progress.completed));
-                    }
-                    if explicit {
-                        for m in &app_unacked {
-                            if !got.contains(m) {
-                                violation("unacknowledged-operation-not-replayed", &format!("{site} (application view)"), format!("stored operation {} has a body and neither it nor a later operation of its log was ever acknowledged by the application, yet it was not delivered again after restart; replayed [{}]; completed steps {}", &m[..6], short(&replayed), progress.completed));
-                                break;
+                        let progress: Progress = std::fs::read(format!("{db}.progress")).ok().and_then(|b| serde_json::from_slice(&b).ok()).unwrap_or_default();
+                        if !aborted {
+                            // The point's n-th occurrence was never reached: the script ran to its end.
+                            exhausted.insert(p.clone());
+                            cleanup();
+                            continue;
+                        }
+                        ctx::fault("crash_at(point)");
+                        reached.insert(p.clone());
+                        ev!("crash point {p} #{n}: aborted after {} completed steps", progress.completed);
+                        progress
+                    } else {
+                        let s2 = script.clone();
+                        let r = std::thread::Builder::new()
+                            .name("sim-node".into())
+                            .spawn(move || stepexec::block_on_seeded(seed, async move { run_script(&s2, None).await }))
+                            .unwrap()
+                            .join();
+                        ctx::fault("crash_at(step)");
+                        match r {
+                            Ok(Ok((p, log))) => {
+                                ev!("crash after step {crash_after}: {}", log.join("; "));
+                                p
+                            }
+                            Ok(Err(e)) if is_actor_start_failure(&e) => {
+                                ctx::probe("inconclusive_node_start_failed");
+                                ev!("inconclusive: the node did not start in {START_ATTEMPTS} attempts ({e})");
+                                cleanup();
+                                break 'pass;
+                            }
+                            Ok(Err(e)) => {
+                                violation("node-api-failed", "fault-free script", e);
+                                cleanup();
+                                break 'pass;
+                            }
+                            Err(_) => {
+                                let info = simcore::runner::take_panic_info();
+                                violation("panic", "node script", format!("panic while running the script: {info:?}"));
+                                cleanup();
+                                break 'pass;
                             }
                         }
-                    }
-                    if let Some(m) = got.difference(&exp).next() {
-                        let acked = progress.acked.contains(m);
-                        violation(if acked { "acknowledged-operation-replayed" } else { "unexpected-operation-replayed" }, &site, format!("{} was delivered again after restart although it is at or below the durable cursor; acked by the application before the crash: {acked}", &m[..6]));
-                    }
-                    if replayed.len() != got.len() {
-                        violation("operation-replayed-twice", &site, format!("replayed [{}]", short(&replayed)));
-                    }
-                    // Everything the application acknowledged successfully must stay acknowledged.
-                    for a in &progress.acked {
-                        if got.contains(a) {
-                            violation("acknowledged-operation-replayed", &site, format!("{} was acknowledged (ack() returned Ok) before the crash and is replayed", &a[..6]));
+                    };
+                    // Phase 2 + 3: read durable state, restart, compare; restart once more.
+                    let db2 = db.clone();
+                    let script2 = script.clone();
+                    let app_acks: BTreeSet<String> = progress.ack_attempted.iter().chain(progress.acked.iter()).cloned().collect();
+                    let verdict = std::thread::Builder::new()
+                        .name("sim-node".into())
+                        .spawn(move || {
+                            stepexec::block_on_seeded(seed, async move {
+                                let durable = read_durable(&db2, seed).await?;
+                                let app_acks = app_acks;
+                                let expected: Vec<String> = durable
+                                    .entries
+                                    .iter()
+                                    .filter(|((a, seq), (_, has_body))| *has_body && durable.cursor.get(a).map(|c| seq > c).unwrap_or(true))
+                                    .map(|(_, (id, _))| id.clone())
+                                    .collect();
+                                let (replayed, ended) = restart_and_replay(&script2, !expected.is_empty()).await?;
+                                // With the automatic policy the first replay acknowledges what it delivers;
+                                // with the explicit policy a second restart must replay the same set.
+                                // (A replayed prune operation is applied by the pipeline, so the expectation is
+                                // recomputed from what is durable before the second restart.)
+                                let second = if script2.explicit {
+                                    let durable2 = read_durable(&db2, seed).await?;
+                                    let expected2: Vec<String> = durable2
+                                        .entries
+                                        .iter()
+                                        .filter(|((a, seq), (_, has_body))| *has_body && durable2.cursor.get(a).map(|c| seq > c).unwrap_or(true))
+                                        .map(|(_, (id, _))| id.clone())
+                                        .collect();
+                                    Some((restart_and_replay(&script2, !expected2.is_empty()).await?.0, expected2))
+                                } else {
+                                    None
+                                };
+                                // The application's own view (explicit policy): a stored operation with a
+                                // body is unacknowledged unless the application called ack() for it or for a
+                                // later operation of the same log, or a later stored operation of that log
+                                // has no body (those are acknowledged by the stream itself). This view does
+                                // not read the persisted cursor.
+                                let app_unacked: Vec<String> = durable
+                                    .entries
+                                    .iter()
+                                    .filter(|((a, seq), (_, has_body))| {
+                                        *has_body
+                                            && !durable.entries.iter().any(|((a2, s2), (id2, b2))| a2 == a && s2 >= seq && (!*b2 || app_acks.contains(id2)))
+                                    })
+                                    .map(|(_, (id, _))| id.clone())
+                                    .collect();
+                                Ok::<_, String>((durable.entries.len(), durable.cursor, expected, replayed, ended, second, app_unacked))
+                            })
+                        })
+                        .unwrap()
+                        .join();
+                    cleanup();
+                    let site = match &point {
+                        Some((p, _)) => format!("abort at crash point {p}"),
+                        None => "crash at a step boundary".to_string(),
+                    };
+                    match verdict {
+                        Ok(Ok((stored, cursor, expected, replayed, ended, second, app_unacked))) => {
+                            let short = |v: &Vec<String>| v.iter().map(|s| s[..6].to_string()).collect::<Vec<_>>().join(",");
+                            ev!("  after crash: {stored} stored, cursor {:?}; expected replay [{}]; replayed [{}] (ReplayEnded: {ended})", cursor.values().collect::<Vec<_>>(), short(&expected), short(&replayed));
+                            let exp: BTreeSet<&String> = expected.iter().collect();
+                            let got: BTreeSet<&String> = replayed.iter().collect();
+                            if let Some(m) = exp.difference(&got).next() {
+                                violation("unacknowledged-operation-not-replayed", &site, format!("stored operation {} (with body, above the durable cursor) was not delivered again after restart; replayed [{}], expected [{}]; completed steps {}", &m[..6], short(&replayed), short(&expected), progress.completed));
+                            }
+                            if explicit {
+                                for m in &app_unacked {
+                                    if !got.contains(m) {
+                                        violation("unacknowledged-operation-not-replayed", &format!("{site} (application view)"), format!("stored operation {} has a body and neither it nor a later operation of its log was ever acknowledged by the application, yet it was not delivered again after restart; replayed [{}]; completed steps {}", &m[..6], short(&replayed), progress.completed));
+                                        break;
+                                    }
+                                }
+                            }
+                            if let Some(m) = got.difference(&exp).next() {
+                                let acked = progress.acked.contains(m);
+                                violation(if acked { "acknowledged-operation-replayed" } else { "unexpected-operation-replayed" }, &site, format!("{} was delivered again after restart although it is at or below the durable cursor; acked by the application before the crash: {acked}", &m[..6]));
+                            }
+                            if replayed.len() != got.len() {
+                                violation("operation-replayed-twice", &site, format!("replayed [{}]", short(&replayed)));
+                            }
+                            // Everything the application acknowledged successfully must stay acknowledged.
+                            for a in &progress.acked {
+                                if got.contains(a) {
+                                    violation("acknowledged-operation-replayed", &site, format!("{} was acknowledged (ack() returned Ok) before the crash and is replayed", &a[..6]));
+                                }
+                            }
+                            if let Some((s, e2)) = second {
+                                if s.iter().collect::<BTreeSet<_>>() != e2.iter().collect::<BTreeSet<_>>() {
+                                    violation("second-restart-replays-different-set", &site, format!("nothing was acknowledged after the first restart, yet the second restart replayed [{}] instead of [{}] (first restart: [{}])", short(&s), short(&e2), short(&replayed)));
+                                }
+                            }
+                        }
+                        Ok(Err(e)) if is_actor_start_failure(&e) => {
+                            ctx::probe("inconclusive_node_start_failed");
+                            ev!("inconclusive: the node did not restart in {START_ATTEMPTS} attempts ({e})");
+                        }
+                        Ok(Err(e)) => {
+                            violation("restart-failed", &site, e);
+                        }
+                        Err(_) => {
+                            let info = simcore::runner::take_panic_info();
+                            violation("panic", "restart", format!("panic during restart / replay: {info:?}"));
                         }
                     }
-                    if let Some((s, e2)) = second {
-                        if s.iter().collect::<BTreeSet<_>>() != e2.iter().collect::<BTreeSet<_>>() {
-                            violation("second-restart-replays-different-set", &site, format!("nothing was acknowledged after the first restart, yet the second restart replayed [{}] instead of [{}] (first restart: [{}])", short(&s), short(&e2), short(&replayed)));
-                        }
+                    if ctx::has_violation() {
+                        break;
                     }
                 }
-                Ok(Err(e)) if is_actor_start_failure(&e) => {
-                    ctx::probe("inconclusive_node_start_failed");
-                    ev!("inconclusive: the node did not restart in {START_ATTEMPTS} attempts ({e})");
-                }
-                Ok(Err(e)) => {
-                    violation("restart-failed", &site, e);
-                }
-                Err(_) => {
-                    let info = simcore::runner::take_panic_info();
-                    violation("panic", "restart", format!("panic during restart / replay: {info:?}"));
+                for p in reached {
+                    match p.as_str() {
+                        "store.after_commit" => ctx::probe("crash_after_store_commit"),
+                        "forge.after_commit" => ctx::probe("crash_after_forge_commit"),
+                        "stream.after_pipeline" => ctx::probe("crash_after_pipeline"),
+                        _ => ctx::probe("crash_after_set_cursor"),
+                    }
                 }
             }
-            if ctx::has_violation() {
-                break;
+            let found = ctx::with(|c| std::mem::take(&mut c.violations));
+            if pass == 0 {
+                if found.is_empty() {
+                    break;
+                }
+                ev!("re-executing the run to confirm: {}", found.iter().map(|v| v.signature.clone()).collect::<Vec<_>>().join(", "));
+                first_pass = found;
+                continue;
             }
-        }
-        for p in reached {
-            match p.as_str() {
-                "store.after_commit" => ctx::probe("crash_after_store_commit"),
-                "forge.after_commit" => ctx::probe("crash_after_forge_commit"),
-                "stream.after_pipeline" => ctx::probe("crash_after_pipeline"),
-                _ => ctx::probe("crash_after_set_cursor"),
+            for v in std::mem::take(&mut first_pass) {
+                if found.iter().any(|w| w.signature == v.signature) {
+                    ctx::with(|c| c.violations.push(v));
+                } else {
+                    ctx::probe("violation_not_reproduced_on_reexecution");
+                    ev!("not reproduced when the identical scenario was executed again (attributed to the environment): {}", v.signature);
+                }
             }
         }
         let _ = signing_key(0);
